@@ -342,6 +342,25 @@ def rule_region_forwarders(ctx, prog, eff):
     ctx.floor("R3.5.forwarders", n, 10, MIN=0)
 
 
+def rule_slice_exact(ctx, prog, rule="R3.6.slice_exact_form"):
+    """The slice-level all-or-error stream forms (which the region-level ones forward to, R3.4): the target is the WHOLE range,
+    range-checked at once (`get_slice(addr, count)?`), handed to the stream's exact loop - so the transfer succeeds exactly when
+    the whole range lies in the slice, whatever chunks the stream delivers (one up-to transfer compared with count instead fails
+    on every short read although the range is fully mapped: seed C03-r9). Shared with C14 (R14.3)."""
+    n = 0
+    SL = "volatile_memory::VolatileSlice"
+    for nm, meth in (("read_exact_volatile_from", "ReadVolatile::read_exact_volatile"), ("write_all_volatile_to", "WriteVolatile::write_all_volatile")):
+        for b in prog.find(adt=SL, trait="bytes::Bytes", name=nm):
+            n += 1
+            rt = b.return_terms()
+            ok = False
+            for _p, t in rt:
+                if match(C(meth, P(3), OKP(C("VolatileMemory::get_slice", P(1), P(2), P(4)))), deep_strip(t), {}):
+                    ok = True
+            ctx.ob(rule, b.key, ok, b.where(), f"{meth.split('::')[-1]}(stream, &get_slice(addr, count)?) — all-or-error target, then the exact loop")
+    return n
+
+
 def run(ctx, progs):
     for cfg, prog in progs.items():
         ctx.config = cfg
@@ -350,6 +369,8 @@ def run(ctx, progs):
         rule_clients(ctx, prog, eff)
         rule_error_map(ctx, prog)
         rule_region_forwarders(ctx, prog, eff)
+        n = rule_slice_exact(ctx, prog)
+        ctx.floor("R3.6.slice_exact_forms", n, 2)
     ctx.not_decided = [
         "'what was written is what is later read back', 'changes no other byte', order of bytes: data flow through memory (reduces to C01 + C04 + these protocol clauses on paper, not as a computed verdict)",
     ]
